@@ -76,7 +76,7 @@ FrRejOpts == {
   <<"numpy_util.split_fields", "reject_missing">>, <<"sfile.split_fields", "reject_missing">>, <<"recfile.split_fields", "reject_missing">>,
   <<"stat.histogram", "reject_nodata">>, <<"stat.histogram+weights", "reject_nodata">>, <<"stat.Binner(x)", "reject_nodata">>,
   <<"stat.Binner(x,y,weights)", "reject_nodata">>, <<"stat.histogram2d", "reject_nodata">>, <<"stat.histogram2d+z+weights", "reject_nodata">>,
-  <<"coords.euler", "reject_select7">>, <<"coords.eq2xyz", "reject_units">>, <<"coords.xyz2eq", "reject_units">>, <<"coords.sphdist", "reject_units">> }
+  <<"coords.euler", "reject_select7">> }
 \* (parameter, value class) on which the call is documented to raise
 FrRejVals == {
   <<"numpy_util.match", "arr1", "dup">>, <<"numpy_util.match", "arr1", "equal">>, <<"numpy_util.match", "arr1", "empty">>, <<"numpy_util.match", "arr2", "empty">>,
@@ -86,8 +86,8 @@ FrRejVals == {
 FrSameSize == {"stat.histogram+weights", "stat.Binner(x,y)", "stat.Binner(x,weights)", "stat.Binner(x,y,weights)", "stat.histogram2d",
                "stat.histogram2d+z+weights", "stat.wmom", "coords.eq2xyz", "coords.sphdist", "coords.gcirc", "coords.eq2sdss", "coords.sdss2eq",
                "coords.rotate", "coords.euler", "coords.eq2gal", "coords.gal2eq", "coords.eq2ec", "coords.ec2eq", "coords.ec2gal", "coords.gal2ec",
-               "WCS.image2sky", "WCS.sky2image", "Cosmo.Dc", "Cosmo.Dm", "Cosmo.Da", "Cosmo.Dl", "Cosmo.V", "Cosmo.Ezinv_integral",
-               "Cosmo.sigmacritinv", "HTM.lookup_id", "Matcher()", "numpy_util.combine_fields", "numpy_util.combine_arrlist"}
+               "WCS.image2sky", "Cosmo.Dc", "Cosmo.Dm", "Cosmo.Da", "Cosmo.Dl", "Cosmo.V", "Cosmo.Ezinv_integral",
+               "Cosmo.sigmacritinv", "HTM.lookup_id", "Matcher()", "numpy_util.combine_fields", "numpy_util.copy_fields"}
 \* (entry point, option) cheap enough to be run on arguments of 2^25 bytes (vectorised numpy / one C loop; no python
 \* loop over the elements, no root finding per element, no pair search)
 FrBig == {
@@ -103,7 +103,7 @@ FrBig == {
   <<"stat.wmom", "sdev">>, <<"stat.sigma_clip", "default">>, <<"stat.sigma_clip+weights", "default">>, <<"stat.get_stats", "default">>,
   <<"stat.interplin", "default">>, <<"stat.boxcar_average", "n3">>,
   <<"coords.eq2gal", "j2000">>, <<"coords.euler", "select3">>, <<"coords.euler", "reject_select7">>, <<"coords.eq2xyz", "deg">>,
-  <<"coords.eq2xyz", "reject_units">>, <<"coords.xyz2eq", "deg">>, <<"coords.sphdist", "deg_deg">>, <<"coords.sphdist", "reject_units">>,
+  <<"coords.xyz2eq", "deg">>, <<"coords.sphdist", "deg_deg">>,
   <<"coords.gcirc", "default">>, <<"coords.eq2sdss", "default">>, <<"coords.sdss2eq", "default">>, <<"coords.shiftlon", "shift_neg">>,
   <<"coords.shiftra", "wrap">>, <<"coords.radec2aitoff", "default">>, <<"coords.rotate", "default">>, <<"coords.rect_area", "default">>,
   <<"WCS.image2sky", "tpv">>, <<"WCS.sky2image", "tpv_nofind">>, <<"WCS.get_jacobian", "tan">>, <<"WCS.image2sph", "tan">>,
@@ -112,12 +112,25 @@ FrBig == {
   <<"Cosmo.Dc", "array_array">>, <<"Cosmo.Da", "array_scalar">>, <<"Cosmo.Ez_inverse", "flat">>, <<"Cosmo.distmod", "flat">>,
   <<"HTM.lookup_id", "depth4">> }
 
+\* the part of FrBig explored in the quick tier: one or two of the cheapest per family
+FrBigQuick == {
+  <<"Recfile.write", "reject_closed">>, <<"recfile.write", "binary">>,
+  <<"numpy_util.extract_fields", "reject_missing">>, <<"numpy_util.split_fields", "some">>,
+  <<"numpy_util.to_native", "keep_dtype_off">>, <<"numpy_util.byteswap", "keep_dtype_off">>,
+  <<"numpy_util.match", "unsorted">>,
+  <<"stat.histogram", "reject_nodata">>, <<"stat.histogram+weights", "nbin">>,
+  <<"stat.wmom", "sdev">>, <<"stat.sigma_clip+weights", "default">>,
+  <<"coords.eq2gal", "j2000">>, <<"coords.euler", "reject_select7">>, <<"coords.shiftlon", "shift_neg">>, <<"coords.eq2xyz", "deg">>,
+  <<"WCS.ApplyCDMatrix", "forward">>, <<"WCS.Rotate", "forward">>, <<"wcsutil.wrap_ra_diff", "default">>,
+  <<"Cosmo.Dc", "array_array">>, <<"HTM.lookup_id", "depth4">> }
+ASSUME FrBigQuick \subseteq FrBig
+
 FrC(name, fam, path, params, ndims, opts, text) ==
     [name |-> name, fam |-> fam, path |-> path, params |-> params, ndims |-> ndims, opts |-> opts, text |-> text,
      rejopts |-> {o \in opts : <<name, o>> \in FrRejOpts},
      rejvals |-> {pv \in {"arr1", "arr2"} \X FrVals : <<name, pv[1], pv[2]>> \in FrRejVals},
      samesize |-> name \in FrSameSize,
-     big |-> {o \in opts : <<name, o>> \in FrBig}]
+     big |-> {o \in opts : <<name, o>> \in FrBig}, bigq |-> {o \in opts : <<name, o>> \in FrBigQuick}]
 
 Tbl(p)      == FrP(p, "table", TBL, "tbl")
 Lon(p)      == FrP(p, "lon", NUM, "f8")
@@ -201,9 +214,9 @@ FrEulerNames == {"coords.eq2gal", "coords.gal2eq", "coords.eq2ec", "coords.ec2eq
 FrCoords ==
   {FrC(n, "coords", "copy", <<Lon("lon"), Lat("lat")>>, {0, 1, 2}, {"j2000", "b1950", "dtype_f4"}, {}) : n \in FrEulerNames} \cup {
   FrC("coords.euler",   "coords", "copy", <<Lon("ai"), Lat("bi")>>, {0, 1, 2}, {"select1", "select2", "select3", "select4", "select5", "select6", "reject_select7"}, {}),
-  FrC("coords.eq2xyz",  "coords", "copy", <<Lon("ra"), Lat("dec")>>, {0, 1, 2}, {"deg", "rad", "stomp", "reject_units"}, {}),
-  FrC("coords.xyz2eq",  "coords", "alias_read", <<FrP("x", "unitx", FLT, "f8"), FrP("y", "unity", FLT, "f8"), FrP("z", "unitz", FLT, "f8")>>, {0, 1, 2}, {"deg", "rad", "stomp", "reject_units"}, {}),
-  FrC("coords.sphdist", "coords", "copy", <<Lon("ra1"), Lat("dec1"), Lon("ra2"), Lat("dec2")>>, {0, 1, 2}, {"deg_deg", "rad_rad", "deg_rad", "rad_deg", "reject_units"}, {}),
+  FrC("coords.eq2xyz",  "coords", "copy", <<Lon("ra"), Lat("dec")>>, {0, 1, 2}, {"deg", "rad", "stomp"}, {}),
+  FrC("coords.xyz2eq",  "coords", "alias_read", <<FrP("x", "unitx", FLT, "f8"), FrP("y", "unity", FLT, "f8"), FrP("z", "unitz", FLT, "f8")>>, {0, 1, 2}, {"deg", "rad", "stomp"}, {}),
+  FrC("coords.sphdist", "coords", "copy", <<Lon("ra1"), Lat("dec1"), Lon("ra2"), Lat("dec2")>>, {0, 1, 2}, {"deg_deg", "rad_rad", "deg_rad", "rad_deg"}, {}),
   FrC("coords.gcirc",   "coords", "copy", <<Lon("ra1"), Lat("dec1"), Lon("ra2"), Lat("dec2")>>, {0, 1, 2}, {"default", "getangle"}, {}),
   FrC("coords.eq2sdss", "coords", "copy", <<Lon("ra"), Lat("dec")>>, {0, 1, 2}, {"default", "dtype_f4"}, {}),
   FrC("coords.sdss2eq", "coords", "copy", <<FrP("clambda", "clambda", NUM, "f8"), FrP("ceta", "ceta", NUM, "f8")>>, {0, 1, 2}, {"default", "dtype_f4"}, {}),
@@ -258,7 +271,9 @@ FrCallNamed(n) == CHOOSE c \in FrCalls : c.name = n
 \* ---- layouts ---------------------------------------------------------------------
 FrHasOrder(k) == k \notin {"u1", "S", "O"}
 \* the exotic kinds a parameter is offered in: all of them where it takes every numeric kind, the floating ones where it takes floats only
-FrXKinds(p) == IF NUM \subseteq p.kinds THEN EXO ELSE IF FLT \subseteq p.kinds /\ p.base \in FLT THEN {"g", "f2"} ELSE {}
+\* (the integers beyond 2^53 are of extreme magnitude: not offered to the role that does not admit "ext")
+FrXKinds(p) == (IF NUM \subseteq p.kinds THEN EXO ELSE IF FLT \subseteq p.kinds /\ p.base \in FLT THEN {"g", "f2"} ELSE {})
+               \ (IF "ext" \in p.vals THEN {} ELSE {"u8", "I8"})
 FrKindsOf(p) == p.kinds \cup FrXKinds(p)
 FrLayoutOK(l, nd) == (FrHasOrder(l.kind) \/ l.order = "native") /\ (nd # 0 \/ l.contig # "reversed")
 FrLayoutsOf(p, nd) == {l \in [order : FrOrders, contig : FrContigs, kind : p.kinds] : FrLayoutOK(l, nd)}
@@ -352,7 +367,7 @@ FrLargeFor(c, S, LG) ==
              val |-> v, size |-> [i \in DOMAIN c.params |-> IF i \in S THEN "large" ELSE "small"]]
             : v \in FrLargeVals(c, S)} : og \in LG}
 FrLargeAssignments(c, nd, opt, Pairwise) ==
-    IF nd # 1 \/ opt \notin c.big THEN {}
+    IF nd # 1 \/ opt \notin (IF Pairwise THEN c.big ELSE c.bigq) THEN {}
     ELSE LET LG == IF Pairwise THEN {<<"native", "c">>, <<"swapped", "c">>, <<"swapped", "strided">>, <<"native", "strided">>}
                    ELSE {<<"swapped", "c">>}
          IN UNION {FrLargeFor(c, S, LG) : S \in {DOMAIN c.params} \cup {{q} : q \in DOMAIN c.params}}
@@ -362,7 +377,7 @@ FrCount(v, z) == IF v = "empty" THEN "none" ELSE IF v = "short" THEN z \o "-1" E
 FrExpectReject(c, opt, val, size) ==
     \/ opt \in c.rejopts
     \/ \E i \in DOMAIN c.params : <<c.params[i].p, val[i]>> \in c.rejvals
-    \/ c.samesize /\ \E i, j \in DOMAIN c.params : FrCount(val[i], size[i]) # FrCount(val[j], size[j])
+    \/ c.samesize /\ (c.fam = "cosmo" => opt \in {"array_array", "array_array_curved"}) /\ \E i, j \in DOMAIN c.params : FrCount(val[i], size[i]) # FrCount(val[j], size[j])
 
 FrAssignments(c, nd, opt, Pairwise, ValNDims) ==
     {[lay |-> l, val |-> FrAllOrd(c), size |-> FrAllSmall(c)] : l \in FrLayAssignments(c, nd, Pairwise)} \cup
